@@ -33,6 +33,32 @@ theorem consume_frame (g : Cfg) (s : St) (a : Ans) :
     simp only [closeWith]
     split <;> simp_all
 
+theorem session_hup (s : St) (a : Addr) : (session s a).2.hup = s.hup := by
+  unfold session; split <;> simp
+
+theorem consume_hup (g : Cfg) (s : St) (a : Ans) : (consume g s a).2.hup = s.hup := by
+  unfold consume
+  cases a with
+  | data src b =>
+    cases src with
+    | none => dsimp only; split <;> split <;> simp
+    | some x => dsimp only; split <;> split <;> simp [session_hup]
+  | zero => simp
+  | eagain => simp
+  | eintr => simp
+  | closed => simp
+  | err => simp only [closeWith]; split <;> simp
+
+theorem rearm_hup (s : St) : (rearm s).hup = s.hup := by unfold rearm; split <;> simp
+theorem closeHang_hup (s : St) : (closeHang s).hup = s.hup := by unfold closeHang; split <;> simp
+
+theorem hupOk_closed (g : Cfg) (hup eof rerr : Bool) (task : TS) (re : Nat) (c c' : Bool)
+    (h : HupOk g hup eof rerr task re c) (hc : c' = c ∨ c' = true) : HupOk g hup eof rerr task re c' := by
+  rcases hc with hc | hc
+  · rw [hc]; exact h
+  · subst hc
+    exact ⟨h.sync, h.backed, h.flag, fun _ h' => (by cases h')⟩
+
 theorem consume_next (g : Cfg) (s : St) (a : Ans) :
     ((consume g s a).1 = .again ↔ a.again g = true) ∧
     ((consume g s a).1 = .dead ↔ (a = .err ∨ a = .closed)) := by
